@@ -2018,6 +2018,7 @@ class latest(Stream):
         self._condition = None
         self.next = []
         self.next_metadata = None
+        self._fresh = False
 
         kwargs["ensure_io_loop"] = True
         Stream.__init__(self, upstream, **kwargs)
@@ -2037,12 +2038,15 @@ class latest(Stream):
 
         self.next = [x]
         self.next_metadata = metadata
+        self._fresh = True
         self.loop.add_callback(self.condition.notify)
 
     @gen.coroutine
     def cb(self):
         while True:
-            yield self.condition.wait()
+            while not self._fresh:
+                yield self.condition.wait()
+            self._fresh = False
             [x] = self.next
             yield self._emit(x, self.next_metadata)
 
